@@ -1,31 +1,14 @@
 use fatfs_verif::ops::{Op, Run};
 use fatfs_verif::vol::VolCfg;
 fn main() {
-    let mut v = VolCfg::from_preset(12);
-    v.free_lo = Some(0);
-    v.free_hi = 40;
-    let cs = v.cluster_size();
-    let hp = fatfs_verif::props::hist_prop("C02").unwrap();
-    let of = |p: &str, k: u8| Op::OpenFile { via: 0, path: p.into(), keep: k };
-    let ops = vec![
-        Op::CreateFile { via: 0, path: "emptied.bin".into(), keep: 1 },
-        Op::Write { h: 0, len: cs, seed: 1 },
-        Op::Write { h: 0, len: 5, seed: 3 },
-        Op::CloseFile { h: 0 },
-        of("emptied.bin", 1),
-        Op::Truncate { h: 0 },
-        Op::CloseFile { h: 0 },
-        of("emptied.bin", 1),
-        Op::Write { h: 0, len: 20, seed: 4 },
-        Op::CloseFile { h: 0 },
-    ];
-    let mut run = Run::new(&hp.run_cfg, &v).unwrap();
-    println!("maxc {}", run.geom.max_cluster());
-    for (i, op) in ops.iter().enumerate() {
-        let r = run.exec(i, op);
-        println!("{:?} -> {:?}", op, r.map_err(|e| e.msg));
-        let dec = run.dev.with_store(|s| fatfs_verif::refdec::decode(s, fatfs_verif::refdec::DecodeOpts::default())).unwrap();
-        for e in &dec.root.entries { println!("   {:?} first {} size {} clusters {:?}", String::from_utf16_lossy(&e.visible_units()), e.first_cluster, e.size, e.clusters); }
+    let mut hp = fatfs_verif::props::hist_prop("C11").unwrap();
+    hp.run_cfg.lenient_mount = true;
+    for fsinfo in [0u16, 0xFFFF] {
+        let mut v = VolCfg::from_gen_preset(5);
+        if let Some(g) = v.gen.as_mut() { g.fsinfo = fsinfo; g.mirror_off = None; g.root_cluster = 2; }
+        match Run::new(&hp.run_cfg, &v) {
+            Ok(mut r) => { println!("fsinfo {:#x}: mounted", fsinfo); let x = r.exec(0, &Op::CreateDir { via: 0, path: "d".into(), keep: 0 }); println!("  mkdir {:?}", x.map_err(|e| e.msg)); println!("  finish {:?}", r.finish().map_err(|e| e.msg)); }
+            Err(e) => println!("fsinfo {:#x}: {}", fsinfo, e),
+        }
     }
-    println!("finish {:?}", run.finish().map_err(|e| e.msg));
 }
